@@ -109,7 +109,7 @@ CLAIMS = {
     "C12": {
         "text": "Kernel-checked for every user model: statistics exist only for N > M+P with dof = N-M-P (c12_ok_dof), N <= M+P always yields an error (c12_underdetermined), weighted residuals = Yw - (W Phi) c, the cached residual expression (c12_residuals), "
                 "chi2 = |r|^2/dof (c12_chi2), standard error^2 = chi2 >= 0 (c12_stderr); on the usize shape model the degrees-of-freedom computation never panics in either build profile (Shape.c12_no_panic) while the pre-fix order provably panicked (Shape.c12_prefix_panics, decide); "
-                "fit_with_statistics = Err(fit result) iff fit failed / no coefficients / statistics erred (C04.c04_fws). Tie: statistics stream in both build profiles. END TO END (Props/C12E2E.lean): fit_with_statistics instantiated on varpro's own problem (fitWithStats); whenever it returns Ok((result, statistics)) over a model honouring the trait contract, N > M+P, dof = N-M-P, the fit was successful, the reported weighted residuals ARE the residual matrix cached in the returned problem, and chi2 = their squared norm / (N-M-P) (c12_e2e).",
+                "fit_with_statistics = Err(fit result) iff fit failed / no coefficients / statistics erred (C04.c04_fws). Tie: statistics stream in both build profiles. END TO END (Props/C12E2E.lean): fit_with_statistics instantiated on varpro's own problem (fitWithStats); whenever it returns Ok((result, statistics)) over a model honouring the trait contract, N > M+P, dof = N-M-P, the fit was successful, the reported weighted residuals ARE the residual matrix cached in the returned problem, and chi2 = their squared norm / (N-M-P) (c12_e2e). A model error during the statistics cannot be lost: if ANY of the P derivative calls fails there are no derivative columns at all, the model-function Jacobian is absent and try_calculate returns the model-evaluation error (c12_failing_derivative, derivCols_some_length: the columns are all-or-nothing and in order); tied to the code by failures injected at every model call the statistics make (stats stream).",
         "note": "Trusted: as C01; from_usize is a parameter (ofNat). Defect repaired by fix: commit 7f5ce42.",
     },
     "C13": {
